@@ -60,6 +60,12 @@ class PartHooks(SliceHooks):
                 conts.append((st, PtrV(hay.obj, hay.off + Lin.atom(k), None)))
             conts.append((s2, NULL))
             return conts
+        mc = re.match(r'^_ST_PRIVATE::compare_c([si])\(char const\*, unsigned long, char const\*, unsigned long\)', d)
+        if mc:
+            # a whole-string comparison (a decision about two texts, not a search): a symbol, remembered with its mode
+            v = I.fresh_int(st, 32, 'cmp4', signed=True)
+            st.ev('cmp4', inst, 'c' + mc.group(1), list(args), v)
+            return [(st, v)]
         if 'emplace_back' in d or 'push_back' in d:
             if 'emplace_back<char const*&, long' in d and len(args) >= 3:
                 # in-place construction string(ptr, len, validation): the arguments travel by reference
@@ -281,6 +287,22 @@ def replace(run, m, F, E, L):
             if isinstance(hay, PtrV) and hay.obj == sto.obj and hl is not None:
                 if s2.is_eq0(hay.off + hl - sto.off - s) is not True:
                     p3.append('search at line %d does not cover [cursor, end of the string)' % e[1].line)
+        if o.kind == 'ret' and not [e for e in s2.events if e[0] == 'search']:
+            # a result produced without looking for `from` at all: fine when the text or the pattern is empty, or when `from` and
+            # `to` are the same bytes (substituting a pattern by itself); a comparison that ignores case does not justify it
+            if s2.is_eq0(s) is True or s2.is_eq0(fl) is True:
+                pass
+            else:
+                cm4 = [e for e in s2.events if e[0] == 'cmp4']
+                just = [e for e in cm4 if isinstance(e[3][0], PtrV) and isinstance(e[3][2], PtrV) and
+                        set([e[3][0].obj, e[3][2].obj]) == set([fsto.obj, tsto.obj]) and s2.is_eq0(e[4].lin) is True]
+                if any(e[2] == 'ci' for e in just):
+                    p3.append('returns without searching because `from` and `to` compare equal ignoring case: occurrences of `from` written in '
+                              'another case than `to` stay unsubstituted (e.g. from="a", to="A", text "a")')
+                elif just:
+                    pass            # byte-for-byte equal pattern and replacement: a no-op
+                else:
+                    und.append('a result is produced without searching for the pattern, on a path not decided to be the empty / identical case')
         if o.kind != 'backedge' or not o.info or o.info[0] != f.name:
             continue
         hdr = o.info[1]
